@@ -120,16 +120,15 @@ Qed.
 
 (* attributes the <sheet> loop does not look at *)
 Lemma sheet_attrs_free : forall rels a r n p v,
-  attr_free [a_name; a_state; a_rid; a_relid] a = true ->
+  keys_ok a = true ->
   sheet_attrs rels (a ++ r) n p v = sheet_attrs rels r n p v.
 Proof.
   induction a as [|[k x] a IH]; intros r n p v H; [reflexivity|].
   cbn in H. apply andb_true_iff in H. destruct H as [H1 H2].
-  apply negb_true_iff in H1. rewrite orb_false_r in H1.
-  apply orb_false_iff in H1. destruct H1 as [E1 H1].
-  apply orb_false_iff in H1. destruct H1 as [E2 H1].
-  apply orb_false_iff in H1. destruct H1 as [E3 E4].
-  cbn [app sheet_attrs]. rewrite E1, E2, E3, E4. cbn [orb]. apply IH. exact H2.
+  apply negb_true_iff in H1.
+  apply orb_false_iff in H1. destruct H1 as [H1 E3].
+  apply orb_false_iff in H1. destruct H1 as [E1 E2].
+  cbn [app sheet_attrs]. rewrite E1, E2, E3. apply IH. exact H2.
 Qed.
 
 Lemma perm3_cases : forall (A : Type) p (a b c : list A),
@@ -161,32 +160,39 @@ Lemma kind_of_path_dir : forall k file, xlsx_kind_ok k = true ->
   kind_of_path (s_xl_slash ++ kind_dir k ++ SLASH :: file) = Some k.
 Proof. intros k file Hk. destruct k; try discriminate; vm_compute; reflexivity. Qed.
 
-Definition rid_key (rpfx : str) : bool := str_eqb (qn rpfx a_id) a_rid || str_eqb (qn rpfx a_id) a_relid.
+Definition rid_key (rpfx : str) : bool :=
+  no_colon rpfx && negb (match rpfx with [] => true | _ => false end).
 
-Lemma rpfx_known_key : forall p, rpfx_known p = true -> rid_key p = true.
+Lemma no_colon_app_colon : forall p l, no_colon (p ++ COLON :: l) = false.
+Proof. induction p as [|x p IH]; intros l; cbn; [reflexivity|]. rewrite IH. apply andb_false_r. Qed.
+
+Lemma colon_neq : forall x y, no_colon y = true -> no_colon x = false -> str_eqb x y = false.
 Proof.
-  intros p H. unfold rpfx_known in H. apply orb_true_iff in H. destruct H as [H|H];
-    apply str_eqb_eq in H; subst p; vm_compute; reflexivity.
+  intros x y Hy Hx. destruct (str_eqb x y) eqn:E; [|reflexivity].
+  apply str_eqb_eq in E. subst y. rewrite Hy in Hx. discriminate.
 Qed.
 
 Lemma rid_key_other : forall p, rid_key p = true ->
-  str_eqb (qn p a_id) a_name = false /\ str_eqb (qn p a_id) a_state = false.
+  str_eqb (qn p a_id) a_name = false /\ str_eqb (qn p a_id) a_state = false /\
+  is_rel_id (qn p a_id) = true.
 Proof.
-  intros p H. unfold rid_key in H. apply orb_true_iff in H. destruct H as [H|H];
-    apply str_eqb_eq in H; rewrite H; split; vm_compute; reflexivity.
+  intros p H. unfold rid_key in H. apply andb_true_iff in H. destruct H as [H1 H2].
+  destruct p as [|x p]; [discriminate|]. unfold qn.
+  repeat split; try (apply colon_neq; [reflexivity|apply no_colon_app_colon]).
+  unfold is_rel_id. rewrite (after_colon_app (x :: p) a_id H1). reflexivity.
 Qed.
 
 (* the three interpreted attributes, in any of the six orders *)
 Lemma sheet_attrs_core : forall rels rpfx nm rid target v omit p post n0 p0,
   rid_key rpfx = true -> map_get rid rels = Some target ->
-  attr_free [a_name; a_state; a_rid; a_relid] post = true ->
+  keys_ok post = true ->
   sheet_attrs rels
     (perm3 p [(a_name, nm)] (if omit && is_visible v then [] else [(a_state, vis_text v)])
            [(qn rpfx a_id, rid)] ++ post) n0 p0 Visible
   = Ok (nm, xlsx_path target, v).
 Proof.
   intros rels rpfx nm rid target v omit p post n0 p0 Hk Hg Hpost.
-  destruct (rid_key_other rpfx Hk) as [K1 K2]. unfold rid_key in Hk.
+  destruct (rid_key_other rpfx Hk) as [K1 [K2 K3]].
   assert (Hend : forall n q w, sheet_attrs rels post n q w = Ok (n, q, w)).
   { intros n q w. rewrite <- (app_nil_r post), (sheet_attrs_free rels post [] n q w Hpost).
     reflexivity. }
@@ -197,7 +203,7 @@ Proof.
                                = sheet_attrs rels r nm q w) by reflexivity.
   assert (Hr : forall r n q w, sheet_attrs rels ((qn rpfx a_id, rid) :: r) n q w
                                = sheet_attrs rels r n (xlsx_path target) w).
-  { intros r n q w. cbn [sheet_attrs]. rewrite K1, K2, Hk, Hg. reflexivity. }
+  { intros r n q w. cbn [sheet_attrs]. rewrite K1, K2, K3, Hg. reflexivity. }
   destruct (omit && is_visible v) eqn:Eo.
   - assert (v = Visible) by (destruct v; try reflexivity; rewrite andb_false_r in Eo; discriminate).
     subst v.
@@ -254,34 +260,23 @@ Proof.
   apply IH; assumption.
 Qed.
 
-(* the text of a defined name: pieces of Text (or, for an empty text, anything) and comments *)
+(* the text of a defined name: pieces of Text or CDATA, comments between them *)
 Lemma name_pieces_run : forall rels q nm ch cuts t val rest st,
-  xn_cuts ch = cuts -> (xn_cdata ch = false \/ t = []) ->
   xlsx_wb_run rels
     (flat_map (fun p => (if xn_cdata ch then CData p else Text p) ::
                         (if xn_comment ch then [Other] else [])) (split_cuts cuts t) ++ rest)
     (XName q nm val) st =
   xlsx_wb_run rels rest (XName q nm (val ++ t)) st.
 Proof.
-  intros rels q nm ch cuts. revert ch. induction cuts as [|k cuts IH]; intros ch t val rest st Hc Hd.
-  - cbn [split_cuts flat_map app]. destruct Hd as [Hd| ->].
-    + rewrite Hd. destruct (xn_comment ch); reflexivity.
-    + rewrite app_nil_r. destruct (xn_cdata ch), (xn_comment ch); cbn; rewrite ?app_nil_r; reflexivity.
+  intros rels q nm ch cuts. induction cuts as [|k cuts IH]; intros t val rest st.
+  - cbn [split_cuts flat_map app]. destruct (xn_cdata ch), (xn_comment ch); reflexivity.
   - cbn [split_cuts flat_map]. rewrite <- app_assoc.
     assert (Hstep : forall rest',
       xlsx_wb_run rels (((if xn_cdata ch then CData (firstn k t) else Text (firstn k t))
                          :: (if xn_comment ch then [Other] else [])) ++ rest') (XName q nm val) st
       = xlsx_wb_run rels rest' (XName q nm (val ++ firstn k t)) st).
-    { intros rest'. destruct Hd as [Hd| ->].
-      - rewrite Hd. destruct (xn_comment ch); reflexivity.
-      - rewrite firstn_nil, app_nil_r. destruct (xn_cdata ch), (xn_comment ch); cbn;
-          rewrite ?app_nil_r; reflexivity. }
-    rewrite Hstep.
-    specialize (IH (mkXn cuts (xn_cdata ch) (xn_comment ch) (xn_pre ch) (xn_post ch))
-                   (skipn k t) (val ++ firstn k t) rest st eq_refl).
-    cbn [xn_cdata xn_comment] in IH. rewrite IH.
-    + rewrite <- app_assoc, firstn_skipn. reflexivity.
-    + destruct Hd as [Hd| ->]; [left; exact Hd|right; apply skipn_nil].
+    { intros rest'. destruct (xn_cdata ch), (xn_comment ch); reflexivity. }
+    rewrite Hstep, IH, <- app_assoc, firstn_skipn. reflexivity.
 Qed.
 
 Lemma k_definedName_local : forall pfx, no_colon pfx = true ->
@@ -289,11 +284,11 @@ Lemma k_definedName_local : forall pfx, no_colon pfx = true ->
 Proof. intros. apply local_name_qn; [assumption|reflexivity]. Qed.
 
 Lemma xlsx_name_step : forall rels pfx n ch rest st,
-  no_colon pfx = true -> xn_legal ch = true -> (xn_cdata ch = false \/ snd n = []) ->
+  no_colon pfx = true -> xn_legal ch = true ->
   xlsx_wb_run rels (name_events pfx n ch ++ rest) XMain st =
   xlsx_wb_run rels rest XMain (add_name st (fst n) (snd n)).
 Proof.
-  intros rels pfx n ch rest st Hp Hl Hd.
+  intros rels pfx n ch rest st Hp Hl.
   unfold xn_legal in Hl. apply andb_true_iff in Hl. destruct Hl as [Hpre _].
   unfold name_events. rewrite <- !app_assoc. cbn [app xlsx_wb_run].
   rewrite (k_definedName_local pfx Hp).
@@ -305,31 +300,25 @@ Proof.
   unfold name_pieces.
   etransitivity.
   { apply (name_pieces_run rels (qn pfx k_definedName) (fst n) ch (xn_cuts ch) (snd n) []
-             (End (qn pfx k_definedName) :: rest) st eq_refl Hd). }
+             (End (qn pfx k_definedName) :: rest) st). }
   cbn [app xlsx_wb_run]. rewrite str_eqb_refl. reflexivity.
 Qed.
 
 Lemma xlsx_names_run : forall rels pfx j names chs rest st,
   no_colon pfx = true -> forallb junk_ok_xlsx j = true ->
   forallb2 (fun (_ : str * str) ch => xn_legal ch) names chs = true ->
-  forallb (fun nc => negb (xn_cdata (snd nc) && negb (match snd (fst nc) with [] => true | _ => false end)))
-          (combine names chs) = true ->
   xlsx_wb_run rels
     (flat_map (fun nc => j ++ name_events pfx (fst nc) (snd nc)) (combine names chs) ++ rest)
     XMain st =
   xlsx_wb_run rels rest XMain (add_names st names).
 Proof.
-  intros rels pfx j. induction names as [|n names IH]; intros [|ch chs] rest st Hp Hj Hl Hd;
+  intros rels pfx j. induction names as [|n names IH]; intros [|ch chs] rest st Hp Hj Hl;
     cbn in Hl; try discriminate; [reflexivity|].
   apply andb_true_iff in Hl. destruct Hl as [Hl1 Hl2].
-  cbn in Hd. apply andb_true_iff in Hd. destruct Hd as [Hd1 Hd2].
   cbn [combine flat_map add_names fst snd]. rewrite <- !app_assoc.
   rewrite (xlsx_skip rels j _ st Hj).
   rewrite (xlsx_name_step rels pfx n ch _ st Hp Hl1).
-  - apply IH; assumption.
-  - apply negb_true_iff in Hd1. destruct n as [nn tt]. cbn [snd fst] in *.
-    destruct (xn_cdata ch); [right|left; reflexivity].
-    destruct tt; [reflexivity|discriminate].
+  apply IH; assumption.
 Qed.
 
 Lemma date1904_value_enc : forall extra t b, attr_free [a_date1904] extra = true ->
@@ -351,33 +340,20 @@ Proof.
 Qed.
 
 Theorem xlsx_parse_encode : forall c wb,
-  xlsx_legal c wb = true -> known_xlsx c wb = None ->
+  xlsx_legal c wb = true ->
   xlsx_read_workbook (rels_map (xc_rels c)) (xlsx_wb_events c wb) =
   Ok (mkParsed (wb_sheets wb) (xlsx_paths c wb) (wb_names wb) (wb_1904 wb)).
 Proof.
-  intros c wb Hl Hk.
+  intros c wb Hl.
   unfold xlsx_legal in Hl.
   apply andb_true_iff in Hl. destruct Hl as [Hl Hnames].
   apply andb_true_iff in Hl. destruct Hl as [Hl Hsheets].
   apply andb_true_iff in Hl. destruct Hl as [Hl Hextra].
-  apply andb_true_iff in Hl. destruct Hl as [Hp Hj].
+  apply andb_true_iff in Hl. destruct Hl as [Hl Hj].
+  apply andb_true_iff in Hl. destruct Hl as [Hl Hr2].
+  apply andb_true_iff in Hl. destruct Hl as [Hp Hr1].
+  assert (Hrk : rid_key (xc_rpfx c) = true) by (unfold rid_key; rewrite Hr1, Hr2; reflexivity).
   set (rels := rels_map (xc_rels c)) in *. set (pfx := xc_pfx c) in *. set (j := xc_junk c) in *.
-  (* what known = None gives *)
-  unfold known_xlsx in Hk.
-  assert (Hrk : wb_sheets wb = [] \/ rid_key (xc_rpfx c) = true).
-  { destruct (wb_sheets wb) eqn:Es; [left; reflexivity|right].
-    destruct (rpfx_known (xc_rpfx c)) eqn:Er; [apply rpfx_known_key; exact Er|].
-    cbn in Hk. discriminate. }
-  assert (Hcd : forallb (fun nc => negb (xn_cdata (snd nc) &&
-                   negb (match snd (fst nc) with [] => true | _ => false end)))
-                        (combine (wb_names wb) (xc_names c)) = true).
-  { destruct (negb (rpfx_known (xc_rpfx c)) && negb (match wb_sheets wb with [] => true | _ => false end));
-      [discriminate|].
-    match type of Hk with (if ?e then _ else _) = _ => destruct e eqn:Ee end; [discriminate|].
-    clear Hk. revert Ee. generalize (combine (wb_names wb) (xc_names c)).
-    induction l as [|x l IH]; intros Ee; [reflexivity|].
-    cbn in Ee. apply orb_false_iff in Ee. destruct Ee as [E1 E2].
-    cbn. rewrite E1. cbn. apply IH. exact E2. }
   unfold xlsx_read_workbook, xlsx_wb_events. fold pfx. fold j.
   assert (Hloc : forall l, no_colon l = true -> local_name (qn pfx l) = l)
     by (intros; apply local_name_qn; assumption).
@@ -413,14 +389,12 @@ Proof.
       (add_sheets st (map (fun sc => (fst sc, s_xl_slash ++ kind_dir (m_kind (fst sc))
                                                ++ SLASH :: xs_file (snd sc)))
                           (combine (wb_sheets wb) (xc_sheets c))))).
-  { intros rest st. destruct Hrk as [Hnil|Hrk].
-    - rewrite Hnil. reflexivity.
-    - apply xlsx_sheets_run; assumption. }
+  { intros rest st. apply xlsx_sheets_run; assumption. }
   rewrite Hsh. rewrite (xlsx_skip rels j _ _ Hj).
   cbn [app]. rewrite xlsx_skip1 by (cbn; rewrite (Hloc k_sheets eq_refl); reflexivity).
   rewrite (xlsx_skip rels j _ _ Hj).
   cbn [app]. rewrite xlsx_skip1 by (cbn; rewrite (Hloc k_definedNames eq_refl); reflexivity).
-  rewrite (xlsx_names_run rels pfx j (wb_names wb) (xc_names c) _ _ Hp Hj Hnames Hcd).
+  rewrite (xlsx_names_run rels pfx j (wb_names wb) (xc_names c) _ _ Hp Hj Hnames).
   rewrite (xlsx_skip rels j _ _ Hj).
   cbn [app]. rewrite xlsx_skip1 by (cbn; rewrite (Hloc k_definedNames eq_refl); reflexivity).
   rewrite (xlsx_skip rels j _ _ Hj).
@@ -479,35 +453,14 @@ Proof.
 Qed.
 
 Theorem xlsx_open_encode : forall c wb rjunk,
-  xlsx_legal c wb = true -> known_xlsx c wb = None -> forallb junk_ok_rels rjunk = true ->
+  xlsx_legal c wb = true -> forallb junk_ok_rels rjunk = true ->
   xlsx_open (rels_events [] rjunk (xc_rels c)) (xlsx_wb_events c wb) =
   Ok (mkParsed (wb_sheets wb) (xlsx_paths c wb) (wb_names wb) (wb_1904 wb)).
 Proof.
-  intros c wb rjunk Hl Hk Hj. unfold xlsx_open.
+  intros c wb rjunk Hl Hj. unfold xlsx_open.
   rewrite (xlsx_rels_roundtrip [] rjunk (xc_rels c) eq_refl Hj). cbn [obind].
   apply xlsx_parse_encode; assumption.
 Qed.
-
-(* the two known classes are real: the model deviates on a witness *)
-Definition xlsx_witness_wb : workbook str := mkWb [mkMeta [83] Visible WorkSheet] [] false.
-Definition xlsx_witness_c (rpfx : str) : xlsx_choice :=
-  mkXc [] rpfx [([114; 73; 100; 49], d_worksheets ++ SLASH :: [115])]
-       [mkXs [114; 73; 100; 49] 0 [115] 0 false [] []] [] false false [] [].
-Lemma xlsx_refuted_rid_prefix :
-  let c := xlsx_witness_c [114; 101; 108] in       (* xmlns:rel, rel:id *)
-  xlsx_legal c xlsx_witness_wb = true /\ known_xlsx c xlsx_witness_wb = Some 1 /\
-  xlsx_read_workbook (rels_map (xc_rels c)) (xlsx_wb_events c xlsx_witness_wb) = Err E_UNREC.
-Proof. vm_compute. repeat split. Qed.
-
-Definition xlsx_witness_cdata_wb : workbook str := mkWb [] [([110], [65; 49])] false.
-Definition xlsx_witness_cdata_c : xlsx_choice :=
-  mkXc [] a_r [] [] [mkXn [] true false [] []] false false [] [].
-Lemma xlsx_refuted_cdata :
-  xlsx_legal xlsx_witness_cdata_c xlsx_witness_cdata_wb = true /\
-  known_xlsx xlsx_witness_cdata_c xlsx_witness_cdata_wb = Some 2 /\
-  xlsx_read_workbook [] (xlsx_wb_events xlsx_witness_cdata_c xlsx_witness_cdata_wb) =
-  Ok (mkParsed [] [] [([110], [])] false).
-Proof. vm_compute. repeat split. Qed.
 
 (* ------------------------------------------------------------------------------------- *)
 (** * ods *)
@@ -730,26 +683,37 @@ Proof.
   cbn [ods_run]. rewrite Hel, Ha. destruct n; reflexivity.
 Qed.
 
-Lemma ods_names_run : forall names chs rest acc st,
+Lemma ods_njunk_skip : forall nj rest acc st, forallb names_junk_ok nj = true ->
+  ods_run (nj ++ rest) (ONames acc) st = ods_run rest (ONames acc) st.
+Proof.
+  induction nj as [|e nj IH]; intros rest acc st H; [reflexivity|].
+  cbn in H. apply andb_true_iff in H. destruct H as [H1 H2].
+  destruct e; try discriminate; cbn [app ods_run]; apply IH; exact H2.
+Qed.
+
+Lemma ods_names_run : forall nj names chs rest acc st,
+  forallb names_junk_ok nj = true ->
   forallb2 (fun (_ : str * str) ch => on_legal ch) names chs = true ->
-  ods_run (flat_map (fun nc => nexpr_events (fst nc) (snd nc) ++ []) (combine names chs) ++ rest)
+  ods_run (flat_map (fun nc => nexpr_events (fst nc) (snd nc) ++ nj) (combine names chs) ++ rest)
           (ONames acc) st =
   ods_run rest (ONames (acc ++ names)) st.
 Proof.
-  induction names as [|n names IH]; intros [|ch chs] rest acc st Hl; cbn in Hl; try discriminate.
+  intros nj. induction names as [|n names IH]; intros [|ch chs] rest acc st Hj Hl; cbn in Hl;
+    try discriminate.
   - rewrite app_nil_r. reflexivity.
   - apply andb_true_iff in Hl. destruct Hl as [Hl1 Hl2].
-    cbn [combine flat_map fst snd]. rewrite app_nil_r, <- app_assoc.
-    rewrite (ods_nexpr_step n ch _ acc st Hl1).
-    rewrite IH by exact Hl2. rewrite <- app_assoc. reflexivity.
+    cbn [combine flat_map fst snd]. rewrite <- !app_assoc.
+    rewrite (ods_nexpr_step n ch _ acc st Hl1), (ods_njunk_skip nj _ _ st Hj).
+    rewrite IH by assumption. rewrite <- app_assoc. reflexivity.
 Qed.
 
 Theorem ods_parse_encode : forall c wb,
-  ods_legal c wb = true -> known_ods c wb = None ->
+  ods_legal c wb = true ->
   ods_parse_content (ods_events c wb) = Ok (mkParsed (wb_sheets wb) [] (wb_names wb) false).
 Proof.
-  intros c wb Hl Hk. unfold ods_legal in Hl.
+  intros c wb Hl. unfold ods_legal in Hl.
   apply andb_true_iff in Hl. destruct Hl as [Hl _].
+  apply andb_true_iff in Hl. destruct Hl as [Hl Hnj].
   apply andb_true_iff in Hl. destruct Hl as [Hl Hnames].
   apply andb_true_iff in Hl. destruct Hl as [Hj Hsheets].
   unfold ods_parse_content, ods_events. set (j := oc_junk c) in *.
@@ -785,31 +749,22 @@ Proof.
             ods_run (j ++ [End o_spreadsheet; End o_body; End o_doc]) OMain (mkOds m nm s sn)
             = Ok (mkOds m nm s (junk_sn j sn))).
   { intros. rewrite (ods_skip j _ m nm s sn Hj). reflexivity. }
-  unfold known_ods in Hk.
   destruct (oc_omit_names c && match wb_names wb with [] => true | _ => false end) eqn:Eo.
   - cbn [app]. rewrite Hfin. cbn [obind od_meta od_names].
     apply andb_true_iff in Eo. destruct Eo as [_ Eo]. destruct (wb_names wb); [reflexivity|discriminate].
-  - destruct (oc_names_junk c) eqn:Enj; [|discriminate].
-    cbn [app]. rewrite <- !app_assoc. cbn [app ods_run].
+  - cbn [app]. rewrite <- !app_assoc. cbn [app ods_run].
     change (str_eqb o_nexprs o_style) with false. cbn iota.
     change (str_eqb o_nexprs o_tprops) with false. rewrite andb_false_r. cbn iota.
     change (str_eqb o_nexprs o_table) with false. cbn iota.
     change (str_eqb o_nexprs o_nexprs) with true. cbn iota.
-    rewrite (ods_names_run (wb_names wb) (oc_names c) _ [] _ Hnames).
+    rewrite (ods_njunk_skip (oc_names_junk c) _ _ _ Hnj).
+    rewrite (ods_names_run (oc_names_junk c) (wb_names wb) (oc_names c) _ [] _ Hnj Hnames).
     cbn [app ods_run].
     change (str_eqb o_nexprs o_nrange) with false. change (str_eqb o_nexprs o_nexpr) with false.
     cbn [orb]. cbn iota. change (str_eqb o_nexprs o_nexprs) with true. cbn iota.
     cbn [od_meta od_names od_styles od_style_name].
     rewrite Hfin. reflexivity.
 Qed.
-
-Definition ods_witness_wb : workbook str := mkWb [mkMeta [83] Visible WorkSheet] [] false.
-Definition ods_witness_c : ods_choice :=
-  mkOc [] [mkOs None [] [] false []] [] [] [Text [10]] false.
-Lemma ods_refuted_names_whitespace :
-  ods_legal ods_witness_c ods_witness_wb = true /\ known_ods ods_witness_c ods_witness_wb = Some 1 /\
-  ods_parse_content (ods_events ods_witness_c ods_witness_wb) = Err E_MISMATCH.
-Proof. vm_compute. repeat split. Qed.
 
 (* ------------------------------------------------------------------------------------- *)
 (** * the date-system flag: every DateTime cell of every sheet carries the flag the workbook
@@ -858,12 +813,12 @@ Qed.
 
 (* composed with the workbook part: xlsx *)
 Theorem date_flag_reaches_cells_xlsx : forall c wb rjunk,
-  xlsx_legal c wb = true -> known_xlsx c wb = None -> forallb junk_ok_rels rjunk = true ->
+  xlsx_legal c wb = true -> forallb junk_ok_rels rjunk = true ->
   exists p, xlsx_open (rels_events [] rjunk (xc_rels c)) (xlsx_wb_events c wb) = Ok p /\
     forall formats cells b dur g,
       In (NumFmt.DDateTime b dur g) (xlsx_sheet_values p formats cells) -> g = wb_1904 wb.
 Proof.
-  intros c wb rjunk Hl Hk Hj. eexists. split; [apply xlsx_open_encode; assumption|].
+  intros c wb rjunk Hl Hj. eexists. split; [apply xlsx_open_encode; assumption|].
   intros formats cells b dur g H. apply date_flag_cells_xlsx in H. exact H.
 Qed.
 
@@ -881,22 +836,6 @@ Lemma xls_kind_code_injective : forall a b, xls_kind_ok a = true -> xls_kind_ok 
   xls_kind_code a = xls_kind_code b -> a = b.
 Proof. intros [] [] Ha Hb H; try reflexivity; discriminate. Qed.
 
-(* ------------------------------------------------------------------------------------- *)
-(** * known class of the xls reader: a defined name with a relative component *)
-Definition xls_witness_wb : workbook xref :=
-  mkWb [mkMeta [83] Visible WorkSheet]
-       [([110], XRef Ptg.CRef 0 (Ptg.Build_cref 0 1 false true))] false.
-Definition xls_witness_c : xls_choice :=
-  mkLc [mkLs 0 false 0] [mkLn false 0 0 0] [(0, 0, 0)] [] [] [] [] true [].
-Lemma xls_refuted_relative_name :
-  xls_legal xls_witness_c xls_witness_wb = true /\
-  known_xls xls_witness_c xls_witness_wb = Some 1 /\
-  spec_names_xls xls_witness_c xls_witness_wb = [([110], [83; 33; 66; 36; 49])] /\
-  xls_parse_workbook (xls_stream xls_witness_c xls_witness_wb) =
-  Ok (mkParsed [mkMeta [83] Visible WorkSheet] []
-               [([110], [83; 33; 36; 88; 70; 70; 36; 49])] false).
-Proof. vm_compute. repeat split. Qed.
-
 (* non-vacuity: concrete workbooks and choices satisfy the hypotheses *)
 Definition ex_xlsx_wb : workbook str :=
   mkWb [mkMeta [97; 38; 60] Hidden WorkSheet; mkMeta [128512] VeryHidden ChartSheet;
@@ -911,7 +850,7 @@ Definition ex_xlsx_c : xlsx_choice :=
        [mkXn [1%nat; 1%nat] false true [] []; mkXn [] true false [] []]
        false true [] [Other; Text [10]].
 Lemma xlsx_nonvacuous :
-  xlsx_legal ex_xlsx_c ex_xlsx_wb = true /\ known_xlsx ex_xlsx_c ex_xlsx_wb = None /\
+  xlsx_legal ex_xlsx_c ex_xlsx_wb = true /\
   xlsx_open (rels_events [] [] (xc_rels ex_xlsx_c)) (xlsx_wb_events ex_xlsx_c ex_xlsx_wb) =
   Ok (mkParsed (wb_sheets ex_xlsx_wb) (xlsx_paths ex_xlsx_c ex_xlsx_wb) (wb_names ex_xlsx_wb) true).
 Proof. vm_compute. repeat split. Qed.
@@ -926,7 +865,7 @@ Definition ex_ods_c : ods_choice :=
        [mkOn false true [] []; mkOn true false [] []]
        [Other; Start o_style [(o_style_name, [99])]; End o_style] [] false.
 Lemma ods_nonvacuous :
-  ods_legal ex_ods_c ex_ods_wb = true /\ known_ods ex_ods_c ex_ods_wb = None /\
+  ods_legal ex_ods_c ex_ods_wb = true /\
   ods_parse_content (ods_events ex_ods_c ex_ods_wb) =
   Ok (mkParsed (wb_sheets ex_ods_wb) [] (wb_names ex_ods_wb) false).
 Proof. vm_compute. repeat split. Qed.
@@ -934,32 +873,32 @@ Proof. vm_compute. repeat split. Qed.
 (* ------------------------------------------------------------------------------------- *)
 (** * projections of the parse-encode theorems, in the shape of the property text *)
 Theorem sheets_in_order_xlsx : forall c wb rjunk,
-  xlsx_legal c wb = true -> known_xlsx c wb = None -> forallb junk_ok_rels rjunk = true ->
+  xlsx_legal c wb = true -> forallb junk_ok_rels rjunk = true ->
   exists p, xlsx_open (rels_events [] rjunk (xc_rels c)) (xlsx_wb_events c wb) = Ok p /\
             p_sheets p = wb_sheets wb /\ p_paths p = xlsx_paths c wb.
 Proof.
-  intros c wb rjunk Hl Hk Hj. eexists. split; [exact (xlsx_open_encode c wb rjunk Hl Hk Hj)|].
+  intros c wb rjunk Hl Hj. eexists. split; [exact (xlsx_open_encode c wb rjunk Hl Hj)|].
   split; reflexivity.
 Qed.
 Theorem sheets_in_order_ods : forall c wb,
-  ods_legal c wb = true -> known_ods c wb = None ->
+  ods_legal c wb = true ->
   exists p, ods_parse_content (ods_events c wb) = Ok p /\ p_sheets p = wb_sheets wb.
 Proof.
-  intros c wb Hl Hk. eexists. split; [exact (ods_parse_encode c wb Hl Hk)|reflexivity].
+  intros c wb Hl. eexists. split; [exact (ods_parse_encode c wb Hl)|reflexivity].
 Qed.
 Theorem defined_names_in_order_xlsx : forall c wb rjunk,
-  xlsx_legal c wb = true -> known_xlsx c wb = None -> forallb junk_ok_rels rjunk = true ->
+  xlsx_legal c wb = true -> forallb junk_ok_rels rjunk = true ->
   exists p, xlsx_open (rels_events [] rjunk (xc_rels c)) (xlsx_wb_events c wb) = Ok p /\
             p_names p = wb_names wb.
 Proof.
-  intros c wb rjunk Hl Hk Hj. eexists. split; [exact (xlsx_open_encode c wb rjunk Hl Hk Hj)|].
+  intros c wb rjunk Hl Hj. eexists. split; [exact (xlsx_open_encode c wb rjunk Hl Hj)|].
   reflexivity.
 Qed.
 Theorem defined_names_in_order_ods : forall c wb,
-  ods_legal c wb = true -> known_ods c wb = None ->
+  ods_legal c wb = true ->
   exists p, ods_parse_content (ods_events c wb) = Ok p /\ p_names p = wb_names wb.
 Proof.
-  intros c wb Hl Hk. eexists. split; [exact (ods_parse_encode c wb Hl Hk)|reflexivity].
+  intros c wb Hl. eexists. split; [exact (ods_parse_encode c wb Hl)|reflexivity].
 Qed.
 Theorem tables_injective :
   (forall a b, vis_text a = vis_text b -> a = b) /\
